@@ -21,6 +21,7 @@ import (
 	"os"
 	"strings"
 	"sync"
+	"time"
 
 	"verif/harness/lib"
 )
@@ -55,10 +56,67 @@ type hctx struct {
 	// driverBroken is set after the first driver failure: the sections keep running their
 	// oracles on the real code, without correspondence.
 	driverBroken bool
+	// requests whose answers nothing else depends on are queued and sent in batches
+	pendLines []string
+	pendCbs   []func(ans string)
+}
+
+// later queues a request; cb gets the answer when the queue is flushed (order is preserved, so
+// the stateful validator session of the driver sees the requests in program order).
+func (h *hctx) later(line string, cb func(ans string)) {
+	if h.driverBroken || h.drv == nil {
+		return
+	}
+	h.pendLines = append(h.pendLines, line)
+	h.pendCbs = append(h.pendCbs, cb)
+	if len(h.pendLines) >= 3000 {
+		h.flush()
+	}
+}
+
+func (h *hctx) flush() {
+	if len(h.pendLines) == 0 {
+		return
+	}
+	lines, cbs := h.pendLines, h.pendCbs
+	h.pendLines, h.pendCbs = nil, nil
+	if h.driverBroken || h.drv == nil {
+		return
+	}
+	for _, l := range lines {
+		if strings.ContainsRune(l, '\n') {
+			h.driverBroken = true
+			h.res.Note("driver request contains a newline")
+			return
+		}
+	}
+	outs, err := h.drv.AskAll(lines)
+	if err != nil {
+		h.driverBroken = true
+		h.res.Note("driver failed: %v", err)
+	}
+	for i, o := range outs {
+		if i < len(cbs) {
+			cbs[i](o)
+		}
+	}
+}
+
+// check queues one model/implementation comparison. soft: an implementation error whose text is
+// not recognised ("err:other") matches any model error.
+func (h *hctx) check(sig string, input any, line, impl string, soft bool) {
+	h.later(line, func(model string) {
+		h.res.Compared(1)
+		if model == impl || (soft && sameVerdict(model, impl)) {
+			return
+		}
+		h.res.Mismatch(lib.Mismatch{Sig: sig, Input: input, Model: clip(model), Impl: clip(impl)})
+	})
 }
 
 // ask sends one request to the Lean driver ("" if the driver is gone).
 func (h *hctx) ask(line string) string {
+	h.flush()
 	h.dmu.Lock()
 	defer h.dmu.Unlock()
 	if h.driverBroken || h.drv == nil {
@@ -116,16 +174,22 @@ func main() {
 
 	if f.Replay != "" {
 		runReplay(h, f.Replay)
+		h.flush()
 		lib.Finish(f, res)
 	}
 
 	r := lib.NewRNG(f.Seed)
-	secPadding(h, r.Fork(1))
-	secMerkle(h, r.Fork(2))
-	secRS(h, r.Fork(3))
-	secE2E(h, r.Fork(4))
-	secSched(h, r.Fork(5))
-	secValidator(h, r.Fork(6))
+	timings := ""
+	for i, sec := range []struct {
+		name string
+		run  func(*hctx, *lib.RNG)
+	}{{"padding", secPadding}, {"merkle", secMerkle}, {"rs", secRS}, {"e2e", secE2E}, {"sched", secSched}, {"validator", secValidator}} {
+		t0 := time.Now()
+		sec.run(h, r.Fork(uint64(i+1)))
+		h.flush()
+		timings += fmt.Sprintf(" %s=%.1fs", sec.name, time.Since(t0).Seconds())
+	}
+	res.Note("section wall times:%s", timings)
 	ex := false
 	res.Exhaustive = &ex
 	lib.Finish(f, res)
